@@ -83,7 +83,7 @@ def lev_summary(eng, st, callee, args):
 
 def mk_entries(nonempty):
     def task(world):
-        eng = world.engine(merge=True, opaque=[r'check_dupes$', r'u32_to_basis$'], max_paths=200000)
+        eng = world.engine(merge=True, opaque=[r'check_dupes$'], max_paths=200000)      # u32_to_basis is inlined from the type crate's MIR (exact integer arithmetic)
         eng.summaries = [(re.compile(r'calculate_max_leverage$'), lev_summary)]
         f = world.fn(r'emode\.rs[^>]*>::validate_entries_with_liability_weights$')
         args = [eng.ex.fresh(f.params[0][1], 'em'), eng.ex.fresh(f.params[1][1], 'cfg'), eng.ex.fresh('u32', 'cap_i'), eng.ex.fresh('u32', 'cap_m')]
@@ -108,13 +108,12 @@ def mk_entries(nonempty):
             for k in nonempty:
                 base = f'em*.{ei}.{ci}[{k}]'
                 ini = z3.Int(f'{base}.3'); mnt = z3.Int(f'{base}.4')
-                ob.prove(eng, r, [okc], z3.Or([z3.And(e[1][0] == ini, e[1][1] == lwi, e[3] == 0) for e in levs] or [z3.BoolVal(False)]), f'entry {k}: initial leverage computed vs liability_weight_init and Ok')
-                ob.prove(eng, r, [okc], z3.Or([z3.And(e[1][0] == mnt, e[1][1] == lwm, e[3] == 0) for e in levs] or [z3.BoolVal(False)]), f'entry {k}: maintenance leverage computed vs liability_weight_maint and Ok')
-            caps = [n for n in free_consts(z3.And(r['pc'] + [okc])) if 'u32_to_basis' in n]
-            if len(caps) < 2: ob.fail('leverage caps (u32_to_basis results) do not influence acceptance')
-            for e in levs:
-                # each Ok leverage must be <= one of the cap values on accepting paths
-                ob.prove(eng, r, [okc, e[3] == 0], z3.Or([e[2] <= z3.Int(n) for n in caps] or [z3.BoolVal(False)]), 'leverage <= a configured cap')
+                U32M = 2**32 - 1
+                capv = lambda c: ((((c * W) * W) / (U32M * W)) * (100 * W)) / W        # u32_to_basis, written independently: (c / u32::MAX) * 100 in I80F48 (truncating division, flooring product)
+                ob.prove(eng, r, [okc], z3.Or([z3.And(e[1][0] == ini, e[1][1] == lwi, e[3] == 0, e[2] <= capv(args[2].e)) for e in levs] or [z3.BoolVal(False)]),
+                         f'entry {k}: initial leverage computed vs liability_weight_init, Ok, and <= the group\'s initial cap (u32 scale 0..100)', role='leverage-cap')
+                ob.prove(eng, r, [okc], z3.Or([z3.And(e[1][0] == mnt, e[1][1] == lwm, e[3] == 0, e[2] <= capv(args[3].e)) for e in levs] or [z3.BoolVal(False)]),
+                         f'entry {k}: maintenance leverage computed vs liability_weight_maint, Ok, and <= the group\'s maintenance cap', role='leverage-cap')
             if not calls(r, r'check_dupes'): ob.structural('Ok path without check_dupes', 'no-dupes-check')
         ob.need_witness()
         return [ob]
